@@ -138,7 +138,7 @@ impl Property for Prop {
         "C03"
     }
     fn rule(&self) -> &'static str {
-        "bits: for seeded fragment trains (2..6 packets, PDU 1..200 bytes, all label kinds incl. re-use substituted first fragments) built by the real encapsulator: EVERY single bit flip of every packet, EVERY burst (every start bit x length 2..32, all-ones pattern; thorough adds two random interior patterns), truncation at EVERY byte, drop / duplicate / adjacent swap of EVERY fragment, the frag-id field replaced by all 256 values, the CRC trailer replaced by {0, ~crc, crc+1, crc-1, byte rotations, random values}; totlen: the total-length field replaced by all 65536 values; double: seeded pairs of the above faults; reseal: structurally faulted trains whose trailer / total length are recomputed for a wrong interpretation (payload without the dropped fragment, with the duplicate, 16-bit wrapped overlay with >= 64 KiB storage, header of another train), and trains of different PDUs spliced on one fragment id; big: trains near 65535 bytes with storage >= 64 KiB incl. over-long trains. Oracle 1 (specification on the received bytes) applies to every run; oracle 2 (no delivery / delivered == sent) to the fault classes the property names. Evaluation = one decap call of a faulted transfer; non-trivial = a faulted transfer (fault actually changed the bytes or the order) that was fed completely; fingerprint = hash(train, fault)."
+        "bits: for seeded fragment trains (2..6 packets, PDU 1..200 bytes, all label kinds incl. re-use substituted first fragments) built by the real encapsulator: EVERY single bit flip of every packet, EVERY burst (every start bit x length 2..32, all-ones pattern; thorough adds two random interior patterns), truncation at EVERY byte, drop / duplicate / adjacent swap of EVERY fragment, the frag-id field replaced by all 256 values, the CRC trailer replaced by {0, ~crc, crc+1, crc-1, byte rotations, random values}; totlen: the total-length field replaced by all 65536 values; double: seeded pairs of the above faults; reseal: structurally faulted trains whose trailer / total length are recomputed for a wrong interpretation (payload without the dropped fragment, with the duplicate, 16-bit wrapped overlay with >= 64 KiB storage, header of another train, label present but sealed as if re-used, first fragment repeated after an intermediate fragment, an early end fragment followed by more fragments, zero-length PDUs with a bad seal), and trains of different PDUs spliced on one fragment id; big: trains near 65535 bytes with storage >= 64 KiB incl. over-long trains. Oracle 1 (specification on the received bytes) applies to every run; oracle 2 (no delivery / delivered == sent) to the fault classes the property names. Evaluation = one decap call of a faulted transfer; non-trivial = a faulted transfer (fault actually changed the bytes or the order) that was fed completely; fingerprint = hash(train, fault)."
     }
     fn gens(&self, cx: &Cx) -> Vec<Gen> {
         vec![
@@ -367,7 +367,7 @@ impl Property for Prop {
                     v
                 };
                 let all: Vec<usize> = (0..nseg).collect();
-                let variant = rng.below(6);
+                let variant = rng.below(10);
                 let (pkts, class): (Vec<Vec<u8>>, &str) = match variant {
                     0 => {
                         // fragment dropped on the wire, but trailer and total length sealed for the FULL PDU
@@ -417,6 +417,45 @@ impl Property for Prop {
                         p.insert(1, alt);
                         (p, "reseal-restart-with-other-first")
                     }
+                    6 => {
+                        // explicit label on the wire, but total length and CRC sealed as if the label were re-used
+                        let t = (2 + full.len()) as u16;
+                        let crc = fr.gse(t, ptype, &[], &full);
+                        let mut p = vec![mk_first(lt, &wl, id, t, ptype, &segs[0])];
+                        for k in 1..nseg - 1 {
+                            p.push(mk_inter(id, &segs[k]));
+                        }
+                        p.push(mk_end(id, &segs[nseg - 1], crc));
+                        (p, if wl.is_empty() { "reseal-control-valid" } else { "reseal-sealed-without-the-label" })
+                    }
+                    7 => {
+                        // the SAME first fragment repeated after an intermediate fragment (sealed for the whole):
+                        // the second first fragment restarts the reassembly, the bytes before it are gone
+                        let mut p = mk(total(full.len()), &full, &all);
+                        let f = p[0].clone();
+                        p.insert(2, f);
+                        (p, "reseal-first-repeated-after-intermediate")
+                    }
+                    8 => {
+                        // an end fragment arrives early (rejected), the train goes on and is sealed for
+                        // everything except the early end's bytes
+                        let early_n = 1 + rng.below(20);
+                        let early = rng.bytes(early_n);
+                        let mut p = mk(total(full.len()), &full, &all);
+                        p.insert(2, mk_end(id, &early, rng.next() as u32));
+                        (p, "reseal-early-end-then-continue")
+                    }
+                    9 => {
+                        // fragmented transfer of a ZERO-length PDU (never produced by the encapsulator) with a
+                        // wrong trailer / a corrupted protocol type
+                        let t = (2 + wl.len()) as u16;
+                        let good = fr.gse(t, ptype, &wl, &[]);
+                        let bad_kind = rng.below(3);
+                        let crc = if bad_kind == 0 { good ^ (1 << rng.below(32)) } else { good };
+                        let pt = if bad_kind == 1 { ptype ^ 0x0100 | 0x0800 } else { ptype };
+                        let p = vec![mk_first(lt, &wl, id, t, pt, &[]), mk_end(id, &[], crc)];
+                        (p, if bad_kind == 2 || (bad_kind == 1 && pt == ptype) { "reseal-control-valid" } else { "reseal-zero-length-pdu-bad-seal" })
+                    }
                     _ => {
                         // correct train (must be delivered and verified by oracle 1)
                         (mk(total(full.len()), &full, &all), "reseal-control-valid")
@@ -440,10 +479,10 @@ impl Property for Prop {
                         let _ = d.provision_storage(b);
                     }
                 }
-                if delivered && variant != 5 && variant != 4 {
+                if delivered && class != "reseal-control-valid" && variant != 4 {
                     rep.violation("C03", format!("delivered-despite-fault:{}", class), || format!("{}: a PDU was delivered from {:?}", class, pkts.iter().map(|p| hex_short(p, 20)).collect::<Vec<_>>()), &replay);
                 }
-                if !delivered && variant == 5 {
+                if !delivered && class == "reseal-control-valid" {
                     rep.count("c03.valid-control-rejected");
                 }
                 rep.count(&format!("c03.{}.{}", class, if delivered { "delivered" } else { "rejected" }));
